@@ -245,7 +245,12 @@ EXTRA = {
 EXTRA6 = {'C02': ' Traits whose class defines both magic handler names; a wildcard observer as a fifth mechanism.', 'C04': ' The owner object may be falsy; *= with an integer-like multiplier.', 'C05': ' A notifier that removes itself while being dispatched.', 'C06': " A notifier that removes itself while being dispatched; key and value validators that both coerce; the dict's contents at the moment every notifier is called.", 'C07': ' A notifier that removes itself while being dispatched; a validator that rejects its own results.', 'C08': ' A container trait assigned its own current value and then mutated.', 'C10': ' Also: Union whose first member has a copy default, a mapped trait with a default method and a shadow listener, a nested mutable inside a container default (known finding F67); half of the assignments are made before the first read.', 'C11': ' The local value may arrive with the constructor arguments.', 'C12': ' The object may be constructed with a keyword, so that dependency defaults materialise during initialisation.', 'C13': " Registering a handler on a name (the object gets its own copy of the governing trait) with a listener that declares all its names; the object's class may sit beside a diamond.", 'C14': ' A never-written write-once attribute on the image; round-tripped definitions are also deleted and assigned twice more.', 'C16': ' Bracket groups of Instance links and a node class with dynamic default initialisers.', 'C18': ' Deletion of stored values with a default that fails only for the deletion; set_default_value with every kind number; fields of one cTrait written again and again under a reference-count watch.', 'C19': ' A prototyped attribute with a ticking validator (set, bad set, delete, prototype changes).', 'C20': ' A one-shot handler may also drop another object in the middle of a propagation.'}
 
 
+EXTRA7 = {'C01': ' Extras values include datetime / time subclasses.', 'C02': ' Handlers may be registered twice (alternating priority) and a handler plus an observer may come and go on every trait before the history.', 'C03': ' Stage lazy: string-named classes resolved through different copies of one trait (listener object, plain object, class trait).', 'C04': ' Containers declared with items=False and with maxlen=0.', 'C05': ' Members found only by identity (NaN, never-equal object) and iterables that fail part-way.', 'C10': ' comparison_mode=none defaults under observers; one CTrait object shared by two attributes.', 'C11': " Falsy delegate objects and targets compared by 'none'.", 'C12': ' pop with the stored object as default; a refused quiet assignment.', 'C15': ' Keyword-like names (in, is, not); the exhaustive alphabet has 15 symbols.', 'C16': ' Another extended name that comes and goes; links assigned already-populated objects.', 'C17': ' A lazily imported offer module may register offers while it is imported.', 'C18': ' ctrait-api also: a validated-Property base and a temporary middle delegate with a prefixed second hop.', 'C19': ' Containers with non-empty declared defaults and their deletion.'}
+
+
 def main():
+    for pid, extra in EXTRA7.items():
+        EXTRA6[pid] = EXTRA6.get(pid, "") + extra
     for pid, extra in EXTRA6.items():
         EXTRA[pid] = EXTRA.get(pid, "") + extra
     for pid, extra in EXTRA.items():
